@@ -17,6 +17,10 @@ pub use js::*;
 
 pub use task::spawn;
 
+#[cfg(all(remoc_verif, not(feature = "js")))]
+#[doc(hidden)]
+pub mod verif;
+
 /// Whether threads are available and working on this platform.
 pub async fn are_threads_available() -> bool {
     use tokio::sync::{OnceCell, oneshot};
